@@ -4,7 +4,7 @@ ENTRY = {'coq_dir': 'C20',
  'cases': {'quick': 4000, 'thorough': 40000},
  'consts': ['BITSWAP_MAX_MESSAGE_SIZE', 'BITSWAP_MAX_BATCH_SIZE', 'BITSWAP_EMPTY_MESSAGE_SIZE'],
  'nontrivial_min_trace': 6,
- 'rule': 'seven seeded case streams, mixed 30/25/4/29/5/5/2: (1) receiving — 1-6 (thorough 1-12) payload entries per case, prefixes built '
+ 'rule': 'eight seeded case streams, mixed 30/25/4/29/5/4/2/1: (1) receiving — 1-6 (thorough 1-12) payload entries per case, prefixes built '
          'from versions {0,1,2,3,127,128,2^64-1}, codecs {raw,dag-pb,...,2^64-1}, all 12 compiled-in hash functions plus 8 unsupported '
          'codes, multihash lengths around the u8 limit, then byte-level mutations (truncation, trailing bytes, non-minimal and ten-byte '
          'varints, bit flips, empty prefix); payloads of 0 B-70 KB (1 MiB thorough) from a pool of 40 ids so that one prefix meets '
@@ -36,7 +36,9 @@ ENTRY = {'coq_dir': 'C20',
          '{0..2^40}: every batch of the real extract_next_presence_batch, the length of the real presences_message, its decoded entries '
          'and its bytes (compared with the Coq encoder byte for byte); (6) request batching — the same for extract_next_want_batch / '
          'request_message with the loop of send_request; (7) blocks_message on 0-6 blocks given with their data (0-300 B): the bytes '
-         'compared with the Coq encoder; non-trivial = trace of >= 6 numbers; distinct = distinct (case, trace) pairs',
+         'compared with the Coq encoder; (8) end to end again — a send_request of 0-9 wants followed by a send_response of 0-6 '
+         'presences and 0-10 honest blocks (0 B-MAX_BATCH_SIZE+1) between the two nodes of stream 3: every BitswapEvent::Request / '
+         'Response of the remote user, message by message; non-trivial = trace of >= 6 numbers; distinct = distinct (case, trace) pairs',
  'trusted_base': ['hash functions are abstract in the theorems (a function code -> data -> option digest); in the runs the digests are '
                   "computed by the harness with multihash-codetable's Code::digest (and with Python's hashlib for the stored corpus), "
                   'outside block_to_response',
